@@ -1,5 +1,5 @@
 \* C18 quick (headers): TraceparentFilter with sampler AND in_sampled_trace_filter(true); 1 thread, <= 2 spans, <= 3 frames, nesting <= 3;
-\* incoming headers sampled(trace 101) / unsampled(trace 102) / invalid(no ids), nested (mismatched) header pushes, Frame::current, events everywhere; every transition replayed.
+\* incoming headers sampled(trace 101) / unsampled(trace 102) / invalid with the sampled flag (no ids, span id only, trace id only), nested header pushes, Frame::current, events, panics; every transition replayed.
 SPECIFICATION Spec
 CONSTANTS
     NThreads = 1
@@ -7,11 +7,12 @@ CONSTANTS
     MaxFrames = 3
     MaxTasks = 0
     MaxDepth = 3
-    Headers <- MC_Headers3
+    Headers <- MC_HeadersInvS
     InSampled = TRUE
     SnapshotOnPush = TRUE
     WithLazy = FALSE
     WithCurrent = TRUE
+    CtxForms <- MC_Forms
     Panics = TRUE
     Emit = TRUE
 VIEW tview
